@@ -6,7 +6,7 @@ for d in seeded/*/; do
   id=$(basename $d); p=${id%%-*}
   [ -f $d/patch.diff ] || continue
   git -C /repo apply /verif/${d}patch.diff || { echo "$id: patch does not apply"; miss=1; continue; }
-  out=$(./check $p quick 2>&1); rc=$?
+  out=$(./check $p quick --evidence /tmp/urisim_mut_ev --replays /tmp/urisim_mut_rp 2>&1); rc=$?
   git -C /repo checkout -- .
   cls=$(echo "$out" | grep -m1 "  class:" | sed 's/ *(run_index.*//')
   echo "$id: check $p exit=$rc $cls"
